@@ -181,7 +181,7 @@ class Model(object):
         ev = self.fc_ev
         G = self.group
         out = []
-        for lf in Q.leaves(ev, t):
+        for lf in Q.leaves(ev, t, order_free=True):
             fields, idx, base = Q.table_access(ev, lf)
             if base == G.elem and Q.range_of(G) is None and G.source is not None and not fields:
                 # the element of a traversal of table[stage] is table[stage][its position]
